@@ -249,8 +249,9 @@ BROKER_TRUSTED = [
 def broker_prop(pid, module):
     return {
         "props_module": module,
+        "namespace": "Aldrin.Broker",
         "level": "proof",
-        "run": generic_run("broker", {"bev", "bstats"} if pid == "C09" else {"bev"}, {pid}, BROKER_SIZES,
+        "run": generic_run("broker", {"bev", "bstats"} if pid == "C09" else ({"bev", "hs"} if pid == "C12" else {"bev"}), {pid}, BROKER_SIZES,
                            canon=broker_canon_for(pid), rule=BROKER_RULE, nontrivial=broker_nontrivial_for(pid)),
         "trusted": BROKER_TRUSTED,
     }
